@@ -5,6 +5,7 @@ from __future__ import annotations
 import ast
 
 from ..core import AnalysisError, const_value, norm, walk_own, walk_stmts
+from .common import key_of
 from ..paths import enum_paths
 
 
@@ -45,7 +46,17 @@ def build(ctx, rule):
         if isinstance(n, ast.Call) and isinstance(n.func, ast.Attribute) and n.func.attr == "seek":
             m.reader = norm(n.func.value)
     if m.reader is None:
-        raise AnalysisError(rule, f.where(), "no seek() on the input handle: cannot identify the two-pass structure")
+        # the second pass may fetch the record through the parsing reader instead of re-reading the raw line
+        for n in walk_own(f.node):
+            if isinstance(n, ast.Call) and isinstance(n.func, ast.Name) and n.func.id in ("str", "repr", "format") and n.args and isinstance(n.args[0], ast.Call) and isinstance(n.args[0].func, ast.Attribute):
+                callee = repo.resolve_call(f, n.args[0])
+                if callee is not None and callee.module.name == "gaftools.gaf" and any(isinstance(x, ast.Call) and isinstance(x.func, ast.Attribute) and x.func.attr == "seek" for x in ast.walk(callee.node)):
+                    ctx.violated("R09.1", f.where(n), f"the second pass writes `{norm(n)[:70]}`: the record is parsed and serialised again instead of copied, so what the parser drops or shortens (the read name after a blank, ds:Z:, a repeated field) is missing from the sorted file", key_of(f, "second-pass-reserialises"))
+                    m.reader = "?"
+        if m.reader is None:
+            raise AnalysisError(rule, f.where(), "no seek() on the input handle: cannot identify the two-pass structure")
+    if m.reader == "?":
+        raise AnalysisError(rule, f.where(), "the raw two-pass structure is gone (records are fetched through the parsing reader)")
     # pass 1: the loop that appends to the list
     m.pass1 = None
     m.pass2 = None
